@@ -50,3 +50,12 @@ def mkdirRootsEach (target : Bytes) (exts : List Bytes) : FS → List (List Visi
       | (fs1, some e) => (fs1, some (.os e))
       | (fs1, none) => mkdirRootsEach target exts fs1 rest
 end Gtree
+
+namespace Gtree
+/-- one root's verification as the massive verifier's worker does it (pipeline_tree_verifier.go):
+    `verifyRoot` then `handleErr` -/
+def verifyOne (fs : FS) (target : Bytes) (strict : Bool) (vs : List Visit) : Option VfErr :=
+  match verifyRoot fs target vs with
+  | .error e => some (.os e)
+  | .ok d => if (strict && !d.extra.isEmpty) || !d.missing.isEmpty then some (.diff strict d) else none
+end Gtree
